@@ -66,10 +66,20 @@ def run_one(mod, case):
     except CaseTimeout:
         rec = {'verdict': 'inconclusive', 'key': 'watchdog', 'nontrivial': False,
                'msg': 'per-case watchdog fired'}
-    except Exception as e:  # harness error: never a verdict on the code
-        rec = {'verdict': 'inconclusive', 'key': 'harness-error', 'nontrivial': False,
-               'msg': 'harness exception: %s: %s' % (type(e).__name__, e),
-               'trace': traceback.format_exc()[-2000:]}
+    except Exception as e:
+        tb = traceback.extract_tb(e.__traceback__)
+        inner = tb[-1].filename if tb else ''
+        from . import REPO_SRC
+        if os.path.realpath(inner).startswith(os.path.realpath(REPO_SRC) + os.sep):
+            # raised by the library itself while executing a call every property presupposes to complete (the generators
+            # only produce documented, valid inputs; on the unchanged tree this never happens): the property cannot hold
+            rec = {'verdict': 'violated', 'mech': 'library-exception/%s' % type(e).__name__, 'key': 'library-exception', 'nontrivial': True,
+                   'msg': 'the library raised %s: %s at %s:%d (%s) during a valid call' % (type(e).__name__, str(e)[:200], os.path.basename(inner), tb[-1].lineno, tb[-1].name),
+                   'witness': {'case': case, 'trace': traceback.format_exc()[-1500:]}}
+        else:   # harness error: never a verdict on the code
+            rec = {'verdict': 'inconclusive', 'key': 'harness-error', 'nontrivial': False,
+                   'msg': 'harness exception: %s: %s' % (type(e).__name__, e),
+                   'trace': traceback.format_exc()[-2000:]}
     finally:
         signal.setitimer(signal.ITIMER_REAL, 0)
     return rec
@@ -110,7 +120,9 @@ def run_chunk(mod_name, chunk):
             else:
                 out['extra']['violations_dropped'] = out['extra'].get('violations_dropped', 0) + 1
             out['cov']['mech:' + rec.get('mech', 'unclassified')] += 1
-        elif v == 'inconclusive' and len(out['inconcl']) < 5:
+        if v == 'inconclusive' and rec.get('key') == 'harness-error':
+            out['cov']['harness_errors'] += 1
+        if v == 'inconclusive' and len(out['inconcl']) < 5:
             out['inconcl'].append({'case': case, 'msg': rec.get('msg', ''), 'trace': rec.get('trace', '')})
         if len(out['samples']) < 2 and rec.get('sample') is not None:
             out['samples'].append(rec['sample'])
@@ -342,6 +354,8 @@ def main(argv=None):
         sum(mech_counts[m] for m in mech_counts if m in known_keys), agg['inconclusive'], n_dist, wall))
     if new_mechs:
         return 1
+    if agg['cov'].get('harness_errors', 0):
+        harness_problem.append('%d cases ended in an exception of the monitoring code itself (no verdict)' % agg['cov']['harness_errors'])
     if harness_problem or floors_unmet:
         for h in harness_problem:
             print('INCONCLUSIVE property=%s %s' % (pid, h))
